@@ -1,18 +1,33 @@
 import Pun.Lemmas.PBoxFrechet
+import Pun.Lemmas.PBoxFrechet2
+import Pun.Lemmas.PBoxRecip
 import Pun.Props.C01
 import Mathlib.Tactic.Ring
 /-!
 # C03 — perfect / opposite / independent arithmetic match their random-set meaning
 
-* `focal_mul_exact`, `focal_add_exact`: the four-corner min/max used for every focal pair is the
-  exact interval combination (sound for every point selection, endpoints attained);
+* `focal_mul_exact`, `focal_add_exact`, `focal_div_exact_pos`: the four-corner min/max used for every
+  focal pair is the exact interval combination (sound for every point selection, endpoints attained);
 * `perfectOp_perm_sorted`, `oppositeOp_perm_sorted`: the returned bounds are the sorted lower /
   upper endpoints of the paired focal combinations (pairing `k ↦ k`, resp. `k ↦ n-1-k`);
-* `perfect_add_steps`: for the sum the unsorted arrays are already monotone, so step `k` of the
-  result IS `X_k + Y_k`;
+* `perfect_add_steps`, `perfect_mul_steps_pos`: for the sum (any operands) and the product
+  (non-negative operands) under perfect dependence the unsorted arrays are already monotone, so step
+  `k` of the result IS `X_k + Y_k` / `X_k · Y_k`; `add_p_steps`, `mul_p_steps_pos` say so for the public
+  methods (through the constructor);
+* `opposite_add_spec`, `add_o_spec`: under opposite dependence the sum is the sorted endpoints of
+  `X_k + Y_{n-1-k}`;
+* **`sub_mirror_p`, `sub_mirror_o`** (public level, through `__neg__` and the constructor):
+  `X.sub(Y,'p')` returns the sorted endpoints of the focal differences `X_k − Y_k` (the pairing is
+  `k ↦ k` because `−Y` lists its steps in reverse order and `'p'` is swapped to `'o'`), and
+  `X.sub(Y,'o')` returns step by step `X_k − Y_{n-1-k}`;
+* **`div_mirror_p`, `div_mirror_o`, `div_mirror_pos`** (public level, through `reciprocal`,
+  `1 * ·` and the constructor; any zero-free divisor, in particular a positive one): `X.div(Y,'p')`
+  returns the sorted endpoints of the focal quotients `X_k / Y_k`, `X.div(Y,'o')` those of
+  `X_k / Y_{n-1-k}`;
 * `condense_index`, `condense_block`: condensing the `n²` sorted endpoints of the independent rule
   takes entry `k(n+1)`, which lies in the `k`-th block of `n` — "within one probability step".
-Not proved here (tie + oracle only): the `p ↔ o` mirroring of `sub`/`div` through the constructor.
+Not proved here (tie + oracle only): division by a divisor with a zero bound raises (`C02.div_zero_bound_raises`)
+and a zero-straddling divisor without a zero bound is not modelled as an error.
 -/
 set_option linter.unusedSimpArgs false
 set_option linter.unusedVariables false
@@ -49,14 +64,6 @@ theorem focal_add_exact (a b c d : Rat) (hab : a ≤ b) (hcd : c ≤ d) :
   · rw [min_eq_left (by linarith : a + c ≤ a + d), min_eq_left (by linarith : a + c ≤ b + c),
       min_eq_left (by linarith : a + c ≤ b + d)]
   · exact max_eq_right (max_le (max_le (by linarith) (by linarith)) (by linarith))
-
-theorem sortR_perm (l : List Rat) : (sortR l).Perm l := List.mergeSort_perm l _
-
-theorem sortR_sorted (l : List Rat) : (sortR l).Pairwise (· ≤ ·) := by
-  have := List.pairwise_mergeSort (le := fun a b : Rat => decide (a ≤ b))
-    (fun a b c h1 h2 => by simp at h1 h2 ⊢; exact le_trans h1 h2)
-    (fun a b => by simp; exact le_total a b) l
-  exact this.imp (fun h => by simpa using h)
 
 /-- perfect dependence: the bounds are the sorted lower / upper endpoints of the focal pairs `(X_k, Y_k)` -/
 theorem perfectOp_perm_sorted (op : Rat → Rat → Rat) (X Y : PB) :
@@ -116,6 +123,231 @@ theorem perfect_add_steps (X Y : PB) (hX : List.Forall₂ (· ≤ ·) X.left X.r
 
 example : perfectOp (· + ·) ⟨[1, 2], [2, 4]⟩ ⟨[0, 5], [1, 6]⟩ = ([1, 7], [3, 10]) := by
   rw [perfect_add_steps] <;> decide +kernel
+
+/-! ## perfect / opposite dependence at the level of the public methods -/
+
+/-- **`X.add(Y,'p')`**: step `k` of the result is exactly `X_k + Y_k` -/
+theorem add_p_steps (n : Nat) (X Y : PB) (hX : WF n X) (hY : WF n Y) :
+    binop n .add .p X Y =
+      .ok ⟨List.zipWith (· + ·) X.left Y.left, List.zipWith (· + ·) X.right Y.right⟩ := by
+  obtain ⟨e1, e2, -⟩ := perfectOp_mono (· + ·) add_mono2 n X Y hX hY
+  simp only [perfF] at e1 e2
+  rw [sortR_of_sorted _ (zipWith_mono_sorted (· + ·) add_mono2 _ _ hX.lsorted hY.lsorted),
+    sortR_of_sorted _ (zipWith_mono_sorted (· + ·) add_mono2 _ _ hX.rsorted hY.rsorted)] at e1 e2
+  simp only [binop, add, e1, e2]
+
+/-- **opposite dependence, sum**: the bounds are the sorted endpoints of `X_k + Y_{n-1-k}` -/
+theorem opposite_add_spec (n : Nat) (X Y : PB) (hX : WF n X) (hY : WF n Y) :
+    oppositeOp (· + ·) X Y =
+      (sortR (List.zipWith (· + ·) X.left Y.left.reverse), sortR (List.zipWith (· + ·) X.right Y.right.reverse)) :=
+  (oppositeOp_mono (· + ·) add_mono2 n X Y hX hY).1
+
+/-- **`X.add(Y,'o')`** through the constructor -/
+theorem add_o_spec (n : Nat) (X Y : PB) (hX : WF n X) (hY : WF n Y) :
+    binop n .add .o X Y =
+      .ok ⟨sortR (List.zipWith (· + ·) X.left Y.left.reverse), sortR (List.zipWith (· + ·) X.right Y.right.reverse)⟩ := by
+  obtain ⟨e1, e2, -⟩ := oppositeOp_mono (· + ·) add_mono2 n X Y hX hY
+  simp only [oppF] at e1 e2
+  simp only [binop, add, e1, e2]
+
+/-- **perfect dependence, product of non-negative operands**: step `k` of the result is exactly
+`X_k · Y_k` (no re-ordering) -/
+theorem perfect_mul_steps_pos (n : Nat) (X Y : PB) (hX : WF n X) (hY : WF n Y) (pX : NonNeg X) (pY : NonNeg Y) :
+    perfectOp (· * ·) X Y =
+      (List.zipWith (· * ·) X.left Y.left, List.zipWith (· * ·) X.right Y.right) := by
+  rw [perfectOp_mul_eq X Y pX pY, (perfectOp_mono mulPos mulPos_mono2 n X Y hX hY).1]
+  simp only [perfF]
+  rw [sortR_of_sorted _ (zipWith_mono_sorted mulPos mulPos_mono2 _ _ hX.lsorted hY.lsorted),
+    sortR_of_sorted _ (zipWith_mono_sorted mulPos mulPos_mono2 _ _ hX.rsorted hY.rsorted),
+    zipWith_congr_mem mulPos (· * ·) X.left Y.left (fun x hx y hy => mulPos_eq x y (pX.1 x hx) (pY.1 y hy)),
+    zipWith_congr_mem mulPos (· * ·) X.right Y.right (fun x hx y hy => mulPos_eq x y (pX.2 x hx) (pY.2 y hy))]
+
+/-- **`X.mul(Y,'p')`** for non-negative operands, through the constructor -/
+theorem mul_p_steps_pos (n : Nat) (X Y : PB) (hX : WF n X) (hY : WF n Y) (pX : NonNeg X) (pY : NonNeg Y) :
+    binop n .mul .p X Y =
+      .ok ⟨List.zipWith (· * ·) X.left Y.left, List.zipWith (· * ·) X.right Y.right⟩ := by
+  have h := perfect_mul_steps_pos n X Y hX hY pX pY
+  obtain ⟨e1, e2, -⟩ := perfectOp_mono mulPos mulPos_mono2 n X Y hX hY
+  rw [← perfectOp_mul_eq X Y pX pY, h] at e1
+  have el : (perfF mulPos X Y).left = List.zipWith (· * ·) X.left Y.left := (congrArg Prod.fst e1).symm
+  have er : (perfF mulPos X Y).right = List.zipWith (· * ·) X.right Y.right := (congrArg Prod.snd e1).symm
+  simp only [binop, mul, h]
+  rw [← el, ← er]
+  exact e2
+
+/-! ## `sub` mirrors `p ↔ o` through negation -/
+
+theorem zipWith_add_map_neg (a b : List Rat) :
+    List.zipWith (· + ·) a (b.map (fun v => -v)) = List.zipWith (· - ·) a b := by
+  rw [List.zipWith_map_right]
+  congr 1
+  funext x y
+  exact (sub_eq_add_neg x y).symm
+
+theorem flipB_left_reverse (φ : Rat → Rat) (Y : PB) : (flipB φ Y).left.reverse = Y.right.map φ := by
+  simp [flipB, List.map_reverse]
+
+theorem flipB_right_reverse (φ : Rat → Rat) (Y : PB) : (flipB φ Y).right.reverse = Y.left.map φ := by
+  simp [flipB, List.map_reverse]
+
+/-- **`X.sub(Y,'p')` = sorted endpoints of the focal differences `X_k − Y_k = [xl_k − yr_k, xr_k − yl_k]`.**
+The method computes `X.add(−Y,'o')`; `−Y` lists the steps of `Y` in reverse order, and opposite
+pairing `k ↦ n-1-k` of the reversed list is the pairing `k ↦ k` of the original. -/
+theorem sub_mirror_p (n : Nat) (X Y : PB) (hX : WF n X) (hY : WF n Y) :
+    binop n .sub .p X Y =
+      .ok ⟨sortR (List.zipWith (· - ·) X.left Y.right), sortR (List.zipWith (· - ·) X.right Y.left)⟩ := by
+  obtain ⟨en, wn⟩ := neg_wf n Y hY
+  obtain ⟨e1, e2, -⟩ := oppositeOp_mono (· + ·) add_mono2 n X (negB Y) hX wn
+  simp only [oppF, flipB_left_reverse, flipB_right_reverse, zipWith_add_map_neg] at e1 e2
+  simp only [binop, sub, en, swapPO, bind, Except.bind, add, e1, e2]
+
+/-- **`X.sub(Y,'o')` = step by step `X_k − Y_{n-1-k}`** (computed as `X.add(−Y,'p')`; no re-ordering) -/
+theorem sub_mirror_o (n : Nat) (X Y : PB) (hX : WF n X) (hY : WF n Y) :
+    binop n .sub .o X Y =
+      .ok ⟨List.zipWith (· - ·) X.left Y.right.reverse, List.zipWith (· - ·) X.right Y.left.reverse⟩ := by
+  obtain ⟨en, wn⟩ := neg_wf n Y hY
+  have h := add_p_steps n X (negB Y) hX wn
+  simp only [binop] at h
+  simp only [binop, sub, en, swapPO, bind, Except.bind, h]
+  have e1 : (negB Y).left = Y.right.reverse.map (fun v => -v) := rfl
+  have e2 : (negB Y).right = Y.left.reverse.map (fun v => -v) := rfl
+  rw [e1, e2, zipWith_add_map_neg, zipWith_add_map_neg]
+
+/-! ## `div` mirrors `p ↔ o` through the reciprocal -/
+
+theorem zip4_length (f : Rat → Rat → Rat → Rat → Rat) (a b c d : List Rat) (n : Nat)
+    (ha : a.length = n) (hb : b.length = n) (hc : c.length = n) (hd : d.length = n) :
+    (zip4 f a b c d).length = n := by
+  induction a generalizing b c d n with
+  | nil => simp at ha; subst ha; simp [zip4]
+  | cons x t ih =>
+    cases b with
+    | nil => simp at hb; subst hb; simp at ha
+    | cons x2 t2 =>
+    cases c with
+    | nil => simp at hc; subst hc; simp at ha
+    | cons x3 t3 =>
+    cases d with
+    | nil => simp at hd; subst hd; simp at ha
+    | cons x4 t4 =>
+      cases n with
+      | zero => simp at ha
+      | succ k =>
+        simp only [zip4, List.length_cons, Nat.add_right_cancel_iff] at *
+        exact ih t2 t3 t4 k ha hb hc hd
+
+theorem min4_le_max4 (a b c d : Rat) : min4 a b c d ≤ max4 a b c d := by
+  unfold min4 max4
+  exact le_trans (le_trans (min_le_left _ _) (le_trans (min_le_left _ _) (min_le_left _ _)))
+    (le_trans (le_max_left _ _) (le_trans (le_max_left _ _) (le_max_left _ _)))
+
+theorem zip4_min_le_max (a b c d : List Rat) :
+    List.Forall₂ (· ≤ ·) (zip4 min4 a b c d) (zip4 max4 a b c d) := by
+  induction a generalizing b c d with
+  | nil => simp [zip4]
+  | cons x t ih =>
+    cases b with
+    | nil => simp [zip4]
+    | cons x2 t2 =>
+    cases c with
+    | nil => simp [zip4]
+    | cons x3 t3 =>
+    cases d with
+    | nil => simp [zip4]
+    | cons x4 t4 =>
+      simp only [zip4]
+      exact List.Forall₂.cons (min4_le_max4 _ _ _ _) (ih t2 t3 t4)
+
+/-- any focal pairing goes through the constructor: sorted lower endpoints, sorted upper endpoints -/
+theorem mk_cornerPair_ok (op : Rat → Rat → Rat) (n : Nat) (xl xr yl yr : List Rat)
+    (h1 : xl.length = n) (h2 : xr.length = n) (h3 : yl.length = n) (h4 : yr.length = n) :
+    mk n false (sortR (cornerPair op xl xr yl yr).1) (sortR (cornerPair op xl xr yl yr).2) =
+      .ok ⟨sortR (cornerPair op xl xr yl yr).1, sortR (cornerPair op xl xr yl yr).2⟩ := by
+  refine (mk_sorted_ok n _ _ ?_ ?_ ?_).1
+  · simp only [cornerPair]; apply zip4_length <;> simp [h1, h2, h3, h4]
+  · simp only [cornerPair]; apply zip4_length <;> simp [h1, h2, h3, h4]
+  · simp only [cornerPair]; exact zip4_min_le_max _ _ _ _
+
+theorem zipWith_mul_map_inv (a b : List Rat) :
+    List.zipWith (· * ·) a (b.map (fun v => 1 / v)) = List.zipWith (· / ·) a b := by
+  rw [List.zipWith_map_right]
+  congr 1
+  funext x y
+  exact mul_one_div x y
+
+theorem cornerPair_mul_inv (xl xr yl yr : List Rat) :
+    cornerPair (· * ·) xl xr (yl.map (fun v => 1 / v)) (yr.map (fun v => 1 / v)) =
+      cornerPair (· / ·) xl xr yl yr := by
+  simp only [cornerPair, zipWith_mul_map_inv]
+
+/-- **`X.div(Y,'p')` = sorted endpoints of the focal quotients `X_k / Y_k`** for every well-formed
+zero-free divisor (each `X_k / Y_k` is the four-corner hull of `x / y`, `x ∈ {xl_k, xr_k}`,
+`y ∈ {yr_k, yl_k}`).  The method computes `X.mul(1/Y,'o')`; `1/Y` lists the steps of `Y` in reverse
+order, so the opposite pairing of the reversed list is the pairing `k ↦ k` of the original. -/
+theorem div_mirror_p (n : Nat) (X Y : PB) (hX : WF n X) (hY : WF n Y) (z : ZeroFree Y) :
+    binop n .div .p X Y =
+      .ok ⟨sortR (cornerPair (· / ·) X.left X.right Y.right Y.left).1,
+           sortR (cornerPair (· / ·) X.left X.right Y.right Y.left).2⟩ := by
+  simp only [binop, div_eq_mul_recip n .p X Y hY z, swapPO, mul, oppositeOp]
+  rw [flipB_left_reverse, flipB_right_reverse, cornerPair_mul_inv]
+  exact mk_cornerPair_ok (· / ·) n _ _ _ _ hX.llen hX.rlen hY.rlen hY.llen
+
+/-- **`X.div(Y,'o')` = sorted endpoints of the focal quotients `X_k / Y_{n-1-k}`** -/
+theorem div_mirror_o (n : Nat) (X Y : PB) (hX : WF n X) (hY : WF n Y) (z : ZeroFree Y) :
+    binop n .div .o X Y =
+      .ok ⟨sortR (cornerPair (· / ·) X.left X.right Y.right.reverse Y.left.reverse).1,
+           sortR (cornerPair (· / ·) X.left X.right Y.right.reverse Y.left.reverse).2⟩ := by
+  simp only [binop, div_eq_mul_recip n .o X Y hY z, swapPO, mul, perfectOp]
+  have e1 : (recipB Y).left = Y.right.reverse.map (fun v => 1 / v) := rfl
+  have e2 : (recipB Y).right = Y.left.reverse.map (fun v => 1 / v) := rfl
+  rw [e1, e2, cornerPair_mul_inv]
+  exact mk_cornerPair_ok (· / ·) n _ _ _ _ hX.llen hX.rlen (by simp [hY.rlen]) (by simp [hY.llen])
+
+/-- both mirrorings for a positive divisor -/
+theorem div_mirror_pos (n : Nat) (X Y : PB) (hX : WF n X) (hY : WF n Y) (pY : ∀ v ∈ Y.left, 0 < v) :
+    binop n .div .p X Y =
+      .ok ⟨sortR (cornerPair (· / ·) X.left X.right Y.right Y.left).1,
+           sortR (cornerPair (· / ·) X.left X.right Y.right Y.left).2⟩ ∧
+    binop n .div .o X Y =
+      .ok ⟨sortR (cornerPair (· / ·) X.left X.right Y.right.reverse Y.left.reverse).1,
+           sortR (cornerPair (· / ·) X.left X.right Y.right.reverse Y.left.reverse).2⟩ :=
+  ⟨div_mirror_p n X Y hX hY (Or.inl pY), div_mirror_o n X Y hX hY (Or.inl pY)⟩
+
+/-- quotient of two focal intervals with a positive divisor `[c, d]`: the four-corner min/max (corners
+in the order the method visits them: `a/d, a/c, b/d, b/c`) encloses every pointwise quotient and both
+are attained -/
+theorem focal_div_exact_pos (a b c d : Rat) (hab : a ≤ b) (hc : 0 < c) (hcd : c ≤ d) :
+    (∀ x y, a ≤ x → x ≤ b → c ≤ y → y ≤ d →
+      min4 (a/d) (a/c) (b/d) (b/c) ≤ x/y ∧ x/y ≤ max4 (a/d) (a/c) (b/d) (b/c)) ∧
+    (∃ x y, a ≤ x ∧ x ≤ b ∧ c ≤ y ∧ y ≤ d ∧ x/y = min4 (a/d) (a/c) (b/d) (b/c)) ∧
+    (∃ x y, a ≤ x ∧ x ≤ b ∧ c ≤ y ∧ y ≤ d ∧ x/y = max4 (a/d) (a/c) (b/d) (b/c)) := by
+  have hd : 0 < d := lt_of_lt_of_le hc hcd
+  have hinv : 1 / d ≤ 1 / c := one_div_le_one_div_of_le hc hcd
+  obtain ⟨h1, h2, h3⟩ := focal_mul_exact a b (1 / d) (1 / c) hab hinv
+  simp only [mul_one_div] at h1 h2 h3
+  have back : ∀ y', 1 / d ≤ y' → y' ≤ 1 / c → c ≤ 1 / y' ∧ 1 / y' ≤ d := by
+    intro y' hy1 hy2
+    have hy0 : 0 < y' := lt_of_lt_of_le (one_div_pos.mpr hd) hy1
+    constructor
+    · have := one_div_le_one_div_of_le hy0 hy2
+      rwa [one_div_one_div] at this
+    · have := one_div_le_one_div_of_le (one_div_pos.mpr hd) hy1
+      rwa [one_div_one_div] at this
+  refine ⟨?_, ?_, ?_⟩
+  · intro x y hx1 hx2 hy1 hy2
+    have hy0 : 0 < y := lt_of_lt_of_le hc hy1
+    have := h1 x (1 / y) hx1 hx2 (one_div_le_one_div_of_le hy0 hy2) (one_div_le_one_div_of_le hc hy1)
+    rwa [mul_one_div] at this
+  · obtain ⟨x, y', hx1, hx2, hy1, hy2, e⟩ := h2
+    obtain ⟨b1, b2⟩ := back y' hy1 hy2
+    exact ⟨x, 1 / y', hx1, hx2, b1, b2, by rw [div_div_eq_mul_div, div_one]; exact e⟩
+  · obtain ⟨x, y', hx1, hx2, hy1, hy2, e⟩ := h3
+    obtain ⟨b1, b2⟩ := back y' hy1 hy2
+    exact ⟨x, 1 / y', hx1, hx2, b1, b2, by rw [div_div_eq_mul_div, div_one]; exact e⟩
+
+example : WF 2 ⟨[1, 2], [2, 4]⟩ := ⟨⟨rfl, rfl, by decide, by decide⟩, by decide⟩
+example : ZeroFree ⟨[1, 2], [2, 4]⟩ := Or.inl (by decide)
+example : List.zipWith (· - ·) [1, 2] [6, 1] = ([-5, 1] : List Rat) := by decide +kernel
 
 /-- condensation index for `n²` values down to `n`: entry `k(n+1)` -/
 theorem condense_index (n k : Nat) (hn : 2 ≤ n) : condenseIdx (n * n) n k = k * (n + 1) := by
